@@ -3,6 +3,8 @@ import OrbitModel.Proofs.GenEqWrite
 import OrbitModel.Proofs.GenEqLoadComplete
 import OrbitModel.Proofs.EmitterSettle
 import OrbitModel.Model.Store
+import OrbitModel.Proofs.BusClose
+import OrbitModel.Proofs.GenEqSubClose
 /-!
 # C16 — store events are ordered, lossless and never ahead of the state they announce
 
@@ -67,5 +69,30 @@ theorem pinned_tree_reorders :
 append and head persisted under the write mutex, THEN the view, THEN the write event -/
 theorem write_path_order_tied_to_go_text : Gen.addOperationOrder = Order.addOperation ∧
     Gen.loadCompleteOrder = Order.loadComplete := ⟨gen_addOperation_order, gen_loadComplete_order⟩
+
+/-- **a legacy subscriber that unsubscribes never wedges the bus** (after the `fix:` commit, finding
+F38): from the state its forwarder used to leave behind — subscription full, the emitter blocked
+inside `emit` (holding the read lock `Close` needs), nobody reading — the drainer lets the emitter
+through and `Close` returns, for every capacity and every number of events still to send; before the
+repair that state was a deadlock: no action of anybody ever changed it (every later `Emit` on the bus
+and every later `Subscribe` then waits behind the pending writer) -/
+theorem unsubscribing_never_wedges_the_bus (s : BusClose.St) (h : BusClose.Stuck s) (hcap : s.cap > 0) :
+    ((BusClose.run true s (BusClose.unwind s.pending)).closed = true ∧
+      (BusClose.run true s (BusClose.unwind s.pending)).pending = 0) ∧
+    (∀ acts, BusClose.run false s acts = s) :=
+  ⟨BusClose.close_gets_through s h hcap, BusClose.stuck_forever s h⟩
+
+/-- the premise is reachable: the emitter fills a 2-slot subscription while the forwarder lags, the
+context ends (on the real emitter: 16 slots, the forwarder held at its hook point — `ewedge`) -/
+theorem the_wedged_state_is_reachable :
+    BusClose.run false { cap := 2, pending := 3 } [.send, .send, .leave] =
+      { cap := 2, chan := 2, pending := 1, reading := false, closing := true } ∧
+    BusClose.Stuck { cap := 2, chan := 2, pending := 1, reading := false, closing := true } :=
+  ⟨BusClose.stuck_is_reachable, by unfold BusClose.Stuck; decide⟩
+
+/-- the legacy forwarder of the Go text of this run keeps reading its subscription until `Close` has
+returned -/
+theorem forwarder_drains_while_it_closes_tied_to_go_text :
+    Gen.subscriberCloseOrder = Order.subscriberClose := gen_subscriberClose_order
 
 end Orbit.C16
